@@ -212,6 +212,9 @@ package keeper
 //@ loop 0: invariant forall j :: 0 <= j && j < len(keys) ==> has(#visited, keys[j])
 //@ loop 0: invariant forall q Str :: has(#visited, q) ==> (exists j :: 0 <= j && j < len(keys) && keys[j] == q)
 //@ loop 0: invariant forall i, j :: 0 <= i && i < j && j < len(keys) ==> keys[i] != keys[j]
+// (stepping stones for loop 1: the sorted key list is duplicate-free; the current key has not been visited; its diff)
+//@ loop 1: invariant forall i, j :: 0 <= i && i < j && j < len(keys) ==> keys[i] != keys[j]
+//@ assert after powerDiff: (forall j :: 0 <= j && j < #i ==> keys[j] != signalID) && powerDiff == diffOf(signalIDToPowerDiff, signalID) && signalID == keys[#i]
 //@ loop 1: invariant forall id Str :: stp(Store_feeds, id) == old(stp(Store_feeds, id)) + ((exists j :: 0 <= j && j < #i && keys[j] == id) ? diffOf(signalIDToPowerDiff, id) : 0)
 //@ loop 1: invariant forall id Str :: stpHas(Store_feeds, id) ==> (stpAt(Store_feeds, id).ID == id && 0 <= stpAt(Store_feeds, id).Power)
 //@ loop 1: invariant voteOf(Store_feeds, voter) == msg.Signals
